@@ -318,8 +318,11 @@ class Check:
               'coverage': cov, 'assumptions': self.assumptions, 'wall_s': round(wall, 2),
               'violations': len(self.violations), 'notes': self.notes + ([self.level_note] if self.level_note else []),
               'known_findings_reported': [k for k, _ in self.known]}
-        os.makedirs(os.path.join(VERIF, 'evidence'), exist_ok=True)
-        with open(os.path.join(VERIF, 'evidence', '%s.json' % self.prop), 'w') as f:
+        # evidence/ only ever describes runs against /repo itself; runs against a scratch copy (seeded changes) go elsewhere
+        evdir = os.path.join(VERIF, 'evidence') if os.path.realpath(REPO) == '/repo' else os.path.join(VERIF, 'replays', 'scratch_evidence')
+        ev['repo'] = REPO
+        os.makedirs(evdir, exist_ok=True)
+        with open(os.path.join(evdir, '%s.json' % self.prop), 'w') as f:
             json.dump(ev, f, indent=1, default=str)
         for k, what in self.known:
             print('KNOWN-FINDING: property=%s %s' % (self.prop, what))
